@@ -52,9 +52,12 @@ def run(R):
             'DescriptorProto': refl.body('server::ReflectionServiceState::process_message'),
             'EnumDescriptorProto': refl.body('server::ReflectionServiceState::process_enum'),
         }
-        pf = refl.body('server::ReflectionServiceState::process_field')
-        R.saw(pf, *fns.values())
-        handlers = {'message_type': 'process_message', 'nested_type': 'process_message', 'enum_type': 'process_enum', 'field': 'process_field'}
+        pfs = refl.find('server::ReflectionServiceState::process_field')
+        pf = pfs[0] if len(pfs) == 1 else None   # the field handler may be written inline in process_message's loop
+        R.saw(*([pf] if pf else []), *fns.values())
+        handlers = {'message_type': 'process_message', 'nested_type': 'process_message', 'enum_type': 'process_enum'}
+        if pf is not None:
+            handlers['field'] = 'process_field'
         own_name = {'FileDescriptorProto': None, 'DescriptorProto': 'message', 'EnumDescriptorProto': 'enum'}
         for ty, b in fns.items():
             its = iterated_fields(b)
@@ -106,9 +109,12 @@ def run(R):
                         R.check(mentions_field(nm, 'name') and term_contains(nm, lambda x: is_call(x, name='next')), 'C19.R1', 'name:%s.%s:element-name' % (ty, f), site(b, bb), 'name part = %s' % show(nm)[:80])
                         val = b.origin(t['args'][2])
                         R.check(term_contains(val, lambda x: x and x[0] == 'arg' and x[2] == 'fd'), 'C19.R1', 'value:%s.%s=declaring-file' % (ty, f), site(b, bb), 'value = %s' % show(val)[:80])
-        ins = [(bb, t) for bb, t in pf.calls(pat='HashMap', name='insert')]
-        okf = len(ins) == 1 and term_contains(pf.origin(ins[0][1]['args'][1]), lambda x: is_call(x, name='extract_name') and show(strip_refs(x[2][0])).startswith('arg3')) and mentions_field(pf.origin(ins[0][1]['args'][0]), 'symbols')
-        R.check(okf, 'C19.R1', 'field-registered', site(pf), 'process_field: symbols.insert(extract_name(prefix, field.name), fd): %r' % okf)
+        if pf is not None:
+            ins = [(bb, t) for bb, t in pf.calls(pat='HashMap', name='insert')]
+            okf = len(ins) == 1 and term_contains(pf.origin(ins[0][1]['args'][1]), lambda x: is_call(x, name='extract_name') and show(strip_refs(x[2][0])).startswith('arg3')) and mentions_field(pf.origin(ins[0][1]['args'][0]), 'symbols')
+            R.check(okf, 'C19.R1', 'field-registered', site(pf), 'process_field: symbols.insert(extract_name(prefix, field.name), fd): %r' % okf)
+        else:
+            R.ok('C19.R1', 'field-registered', site(fns['DescriptorProto']), 'fields are registered inline in process_message (checked as loop:DescriptorProto.field->insert)')
         # recursion for nested messages exists
         pm = fns['DescriptorProto']
         R.check(any((t.get('fn') or '').endswith('process_message') for bb, t in pm.calls(name='process_message')), 'C19.R1', 'nested-recursion', site(pm), 'process_message recurses for nested_type')
@@ -129,7 +135,8 @@ def run(R):
                 args = show(ex.origin(t['args'][1]))
                 dot = 'arg1' in args and 'arg3' in args
         R.check(dot, 'C19.R2', 'join-with-dot', site(ex), 'format!("{}.{}", prefix, name) on the non-empty edge: %r' % dot)
-        ts = ex.calls(name='to_string')
+        ts = ex.calls(name='to_string') + ex.calls(name='clone') + ex.calls(name='to_owned')
+        ts = [(bb, t) for bb, t in ts if term_contains(ex.origin(t['args'][0]), lambda x: x and x[0] == 'arg' and x[1] == 3) or 'arg3' in show(ex.origin(t['args'][0]))]
         okt = any(any(is_call(strip_refs(tm), name='is_empty') and (vals == ['else'] or 0 not in vals) for s, vals, tm in ex.edge_guards(bb)) for bb, t in ts)
         R.check(okt, 'C19.R2', 'bare-name-when-no-prefix', site(ex), 'name.to_string() on the empty-prefix edge')
         errs = [bb for bb, i, p, a, ops in mirlib.aggregates(ex, 'result::Result', 'Err') if p['l'] == 0]
@@ -169,8 +176,15 @@ def run(R):
             R.saw(b)
             g = b.calls(pat='HashMap', name='get')
             R.check(len(g) == 1 and mentions_field(b.origin(g[0][1]['args'][0]), fld) and show(strip_refs(b.origin(g[0][1]['args'][1]))).startswith('arg2'), 'C19.R3', '%s:lookup' % fn, site(b), '%s.get(arg)' % fld)
-            nf = b.calls(pat='Status::not_found')
-            R.check(len(nf) == 1 and any(tm[0] == 'discr' and 'get(' in show(tm) and vals in ([0], ['else']) for s, vals, tm in b.edge_guards(nf[0][0])), 'C19.R3', '%s:not_found' % fn, site(b), 'NOT_FOUND on a miss')
+            fb_ = family(refl, b)
+            nf = fam_calls(fb_, pat='Status::not_found')
+            oknf = False
+            if len(nf) == 1 and nf[0][0] is b:
+                oknf = any(tm[0] == 'discr' and 'get(' in show(tm) and vals in ([0], ['else']) for s, vals, tm in b.edge_guards(nf[0][1]))
+            elif len(nf) == 1:
+                # get(..).ok_or_else(|| Status::not_found(..))?
+                oknf = any(t2.get('name') in ('ok_or_else', 'ok_or') and is_call(strip_refs(b.origin(t2['args'][0])), name='get') and strip_refs(b.origin(t2['args'][1]))[0] == 'agg' and strip_refs(b.origin(t2['args'][1]))[1].get('def') == nf[0][0].path for bb2, t2 in b.calls())
+            R.check(oknf, 'C19.R3', '%s:not_found' % fn, site(b), 'NOT_FOUND on a miss')
             en = b.calls(name='encode')
             R.check(len(en) == 1 and term_contains(b.origin(en[0][1]['args'][0]), lambda x: is_call(x, name='get')), 'C19.R3', '%s:encodes-found' % fn, site(b), 'the found descriptor is encoded')
 
